@@ -44,10 +44,13 @@ func (p *NoOpPacer) AddStream(ssrc uint32, writer interceptor.RTPWriter) {
 
 // Write sends a packet with header and payload to a previously added stream.
 func (p *NoOpPacer) Write(header *rtp.Header, payload []byte, attributes interceptor.Attributes) (int, error) {
+	// look the writer up under the lock, but do not hold the lock while the next writer
+	// is busy: AddStream (a BindLocalStream) must not wait for a slow transport
 	p.lock.Lock()
-	defer p.lock.Unlock()
+	w, ok := p.ssrcToWriter[header.SSRC]
+	p.lock.Unlock()
 
-	if w, ok := p.ssrcToWriter[header.SSRC]; ok {
+	if ok {
 		return w.Write(header, payload, attributes)
 	}
 
